@@ -318,6 +318,55 @@ def retry_remainder(chk, P, prefix):
         return True, "", ["%s:%s" % (b.file, s.get("line"))]
     chk.ob("%s.R4:retry-remainder" % prefix, "a retry re-submits exactly the remainder the processor returned, with the same batch's watchers", f)
 
+    def decision():
+        """`items the processor itself asks to have retried ... are re-delivered`: whether a returned remainder is re-submitted depends on the
+        processor's outcome, the remainder being non-empty and the retry budget - on nothing else (not on the channel being open, not on a
+        flag read under the lock).  Every branch inside the retry loop that decides whether the re-submission is reached tests one of those."""
+        b = P.body(EXEC)
+        (oh, obody), (ih, ibody) = exec_loops(b)
+        site = None
+        for bb, j, st in b.statements(normal_only=True):
+            if st["k"] == "assign" and st["rv"]["k"] == "agg" and (st["rv"].get("adt") or "").endswith("::Batch") and bb in ibody:
+                if "retryable" in o_str(b.origin(st["rv"]["ops"][0])):
+                    site = bb
+        if site is None:
+            raise mir.AnchorMissing("the re-submission of the retryable remainder inside exec's retry loop")
+
+        def roots(o, d=0):
+            if d > 12 or not isinstance(o, tuple) or not o:
+                return [("?", None)]
+            if o[0] in ("discr", "field", "downcast", "deref", "ref", "copy", "cast", "unop"):
+                return roots(o[1] if o[0] != "unop" else o[2], d + 1)
+            if o[0] == "binop":
+                return roots(o[2], d + 1) + roots(o[3], d + 1)
+            if o[0] == "const":
+                return []
+            if o[0] == "call":
+                return [("call", o[1])]
+            if o[0] == "phi":
+                return [r for x in o[1] for r in roots(x, d + 1)]
+            return [(o[0], o)]
+        ev = []
+        for g, vals, n in b.guards_of(site):
+            if g not in ibody:
+                continue
+            so = b.switch_origin(g)
+            for kind, c in roots(so):
+                ok = False
+                if kind == "call":
+                    nm = c.callee.get("name")
+                    full = c.callee.get("path") or c.callee.get("full") or ""
+                    ok = nm in ("catch_unwind", "poll", "len", "is_empty") or (nm == "next" and "Retry" in full)
+                if not ok:
+                    return False, ("whether the returned remainder is retried also depends on %s (branch at %s:%s): a remainder the processor asked "
+                                   "to have retried is dropped on a condition other than its emptiness and the retry budget"
+                                   % (o_str(so)[:120], b.file, b.blocks[g]["term"].get("line"))), [], "%s:%s" % (b.file, b.blocks[g]["term"].get("line"))
+            ev.append("%s:%s" % (b.file, b.blocks[g]["term"].get("line")))
+        if len(ev) < 4:
+            raise mir.AnchorMissing("the branches deciding a retry (outcome, remainder, emptiness, budget); found %d" % len(ev))
+        return True, "", ev
+    chk.ob("%s.R4:retry-decision" % prefix, "a returned remainder is retried whenever it is non-empty and the budget allows - no other condition", decision)
+
     def on_batch_moved():
         b = P.body(EXEC)
         cu = b.calls_to(path="std::panic::catch_unwind")
